@@ -1,5 +1,7 @@
 import Driver.Pure
 import Driver.Session
+import Driver.Mocks
+import Driver.Fs
 /-! Model driver: reads an operation script on stdin, prints the model's
 observations, one per line (same protocol as /verif/harness). -/
 open Driver
@@ -22,26 +24,26 @@ partial def loopPure (step : List String → String) (h : IO.FS.Stream) (out : I
 
 def trunc (s : String) : String := if s.length > 120 then (s.take 120).toString else s
 
-partial def loopState {σ : Type} (init : σ) (step : σ → List String → σ × List String)
+partial def loopState {σ : Type} (echo : Bool) (init : σ) (step : σ → List String → σ × List String)
     (h : IO.FS.Stream) (out : IO.FS.Stream) (st : σ) : IO Unit := do
   let line ← h.getLine
   if line.isEmpty then return ()
   let l := line.trimAscii.toString
   if l.isEmpty || l.startsWith "#" then
-    loopState init step h out st
+    loopState echo init step h out st
   else
     let f := fieldsOf l
     if f.head? == some "reset" then
       out.putStrLn "reset"
-      loopState init step h out init
+      loopState echo init step h out init
     else if f.head? == some "end" then
       out.putStrLn (" ".intercalate f)
-      loopState init step h out st
+      loopState echo init step h out st
     else
-      out.putStrLn ("> " ++ trunc l)
+      if echo then out.putStrLn ("> " ++ trunc l)
       let (st', lines) := step st f
       for ln in lines do out.putStrLn ln
-      loopState init step h out st'
+      loopState echo init step h out st'
 
 def main (args : List String) : IO UInt32 := do
   let stdin ← IO.getStdin
@@ -49,5 +51,7 @@ def main (args : List String) : IO UInt32 := do
   match args with
   | ["pure"] => loopPure pureStep stdin stdout; return 0
   | ["oracle"] => loopPure oracleStep stdin stdout; return 0
-  | ["session"] => loopState ({} : Model.S) sessStep stdin stdout {}; return 0
+  | ["session"] => loopState true ({} : Model.S) sessStep stdin stdout {}; return 0
+  | ["fs"] => loopState false () (fun _ f => ((), fsStep f)) stdin stdout (); return 0
+  | ["mocks"] => loopState false ({} : MSt) mocksStep stdin stdout {}; return 0
   | _ => IO.eprintln "usage: driver <port> < script"; return 2
